@@ -65,8 +65,11 @@ REG = {
  'C13': ('exploration', 'scenarios generated by the TLA+-driven drivers (free-running with yield hooks, park-mode schedule replay) executed under the Go race detector',
          'A data race is a property of the memory accesses of the compiled program: no API-level trace exposes it, so the specification cannot decide it. Its role is the one the property names: it generates and bounds the concurrent scenarios (all direction-B drivers and the park-mode schedule replay used for C02 C03 C05 C06 C10 C11, plus hand-off, timed and rate-limit drivers); the harness is built with -race (its own event log switched off so that it adds no happens-before edges) and the Go race detector is the oracle. The Level-2 model Detach.tla predicts the one known report (close vs. send on the hand-off channel).',
          'exploration with an external oracle: only races on executed schedules are seen', '6/C13 and 7'),
+ 'C18': ('other', 'stream-level lifting laws decided by TLC (Lift.tla) over logged tables of the wrapped functions, which are uninterpreted in the specification',
+         'The wrapped standard-library functions are outside TLA+ (numeric / text functions); the specification decides the lifting law (out = lift(f, in) with the position of the Error), sibling agreement, round trips, sorted-permutation-and-stability, chunk concatenation, no mutation of inputs or delivered values, grammar and release, as relations over tables the harness logs by calling the wrapped functions directly.',
+         'the graph of every wrapped function comes from calling it; 37 plugin scenarios registered, CSV and the writers not yet', '6/C18 and 7'),
 }
-NA_REASON = 'check not built yet (framework under construction); planned, see DESIGN.md section 6'
+NA_REASON = 'not claimed'
 
 checks = []
 for p in props:
